@@ -10,10 +10,10 @@ MC_DomHR == {1}
 MC_DomHID == {1}
 MC_Shapes == {<<3,2>>, <<4,2>>}
 MC_IdSets == {{2,3,5}, {1,2,4,6}}
-MC_KeyChoices == 1..6
+MC_KeyChoices == {1,3,6}
 MC_CoeffChoices == 0..6
 MC_DeltaChoices == {0,4}
-MC_NewIds == {1,6}
+MC_NewIds == {1,3,6}
 MC_Scenarios == {"ok","bad"}
 MC_MaxExtraH == 2
 MC_RandChoices == {1}
